@@ -4,6 +4,15 @@ SIM_NOTE = ("trusted base: the behavioural nRF24L01+ simulator (vlib/sim, self-t
             "driver; chip assumptions (a)-(e) of DESIGN.md 2.6")
 
 CHECKS = [
+    {"property_id": "C16", "level": "exploration",
+     "text": "a mesh master on a simulated radio receives real MESH_ADDR_REQUEST / MESH_ADDR_RELEASE frames over the air (direct "
+             "and relayed) and its replies are read from the air log; every event word to depth 3 (quick) / 4 (thorough) over "
+             "requests, re-requests, releases by message and API and save/load cycles, for five pre-filled tables, plus a sweep of a "
+             "request through every one of the 155 relay addresses of level 1..3 with empty / nearly full / full parents, are "
+             "enumerated; Hypothesis draws ids 1..255 and histories to 14 events, and tables of 0..255 entries for persistence; the "
+             "lease-table invariants of the statement are evaluated on dhcp_dict after every event",
+     "design_ref": "4/C16", "note": SIM_NOTE + "; weak liveness (a request with a free slot is answered) is assumed as part of 'a released address becomes available again'",
+     "technique": "model-based property testing: bounded-exhaustive event words + Hypothesis histories with lease-table invariants checked after every event"},
     {"property_id": "C14", "level": "exploration",
      "text": "every sender class (master, 0o1, other level-1, levels 2..4) x every target level (default, 0..4, -1, 5) x message "
              "length class is enumerated on a fixed populated topology; Hypothesis draws populated topologies of 6..20 nodes with "
